@@ -464,7 +464,8 @@ func (w *YW) checkStoreOnce(why string, needContiguous, deferGap bool) (gapSeen 
 		return
 	}
 	idx := w.storedHeights()
-	for h, hash := range idx {
+	for _, h := range sortedHeights(idx) {
+		hash := idx[h]
 		want := w.Ch.At(h)
 		if want == nil || string(want.Hash()) != string(hash) {
 			s.Violate("foreign-header-stored", map[string]string{"where": "index"}, "[%s] height index %d points to %X which is not the honest chain's header", why, h, hash)
@@ -517,7 +518,7 @@ func (w *YW) checkStoreOnce(why string, needContiguous, deferGap bool) (gapSeen 
 				return false
 			}
 		}
-		for h := range idx {
+		for _, h := range sortedHeights(idx) {
 			if h < tail.Height() || h > head.Height() {
 				if deferGap {
 					return true
